@@ -16,7 +16,7 @@ import vf, jsoncommon as J
 def main():
     c = vf.Check("C08")
     (asan,) = c.build("h_json.asan")
-    p, ok = J.run_family(c, asan, "stringify", ["stringify", str(c.seed), "100000" if c.thorough else "15000"])
+    p, ok = J.run_family(c, asan, "stringify", ["stringify", str(c.seed), "400000" if c.thorough else "15000"])
     if ok:
         evs = vf.read_ndjson(p)
         import json
